@@ -1,0 +1,29 @@
+//! Verification hooks (only compiled with `--cfg tokio_rs_tracing_verif`).
+//!
+//! `yield_point(site)` is called at a few places where a scheduler that owns the
+//! interleaving of threads wants to take control. Without an installed hook it does
+//! nothing.
+use std::sync::{Arc, RwLock};
+
+type Hook = Arc<dyn Fn(&'static str) + Send + Sync>;
+
+static HOOK: RwLock<Option<Hook>> = RwLock::new(None);
+
+/// Installs the process-wide hook.
+pub fn set_hook(hook: Hook) {
+    *HOOK.write().unwrap_or_else(|e| e.into_inner()) = Some(hook);
+}
+
+/// Removes the process-wide hook.
+pub fn clear_hook() {
+    *HOOK.write().unwrap_or_else(|e| e.into_inner()) = None;
+}
+
+/// Calls the installed hook, if any, with the name of the site.
+#[inline]
+pub fn yield_point(site: &'static str) {
+    let hook = HOOK.read().unwrap_or_else(|e| e.into_inner()).clone();
+    if let Some(hook) = hook {
+        hook(site);
+    }
+}
